@@ -112,3 +112,103 @@ func runC16WaitOptions(c *Ctx, w *ATWorld) {
 		}
 	}
 }
+
+// ---- a text of several queries (multiStatements=true), or a stored procedure, answers with several result sets:
+// the application walks them with rows.NextResultSet. Inside a global transaction it must see the same sets as
+// through the plain driver, in AT and in XA mode (cases c16-r*).
+func runC16ResultSets(c *Ctx, w *ATWorld) {
+	xa := w.OpenXA()
+	n := 0
+	for _, mode := range []string{"at", "xa"} {
+		for _, explicit := range []bool{false, true} {
+			n++
+			cid := fmt.Sprintf("c16-r%d", n)
+			if !c.Want(cid) {
+				continue
+			}
+			table := w.NewTableName("rsets")
+			w.Eng.CreateTable(memdb.TableDef{Name: table, Cols: []memdb.Column{{Name: "id", Type: memdb.TBigInt}, {Name: "n", Type: memdb.TBigInt, Nullable: true}}, PK: []string{"id"}})
+			w.Eng.InsertRows(table, memdb.Row{int64(1), int64(10)}, memdb.Row{int64(2), int64(20)}, memdb.Row{int64(3), int64(30)})
+			q := "SELECT id FROM " + table + " WHERE id <= 2 ORDER BY id; SELECT n FROM " + table + " WHERE id = 3; SELECT id, n FROM " + table + " WHERE id = 1"
+			run := func(ctx context.Context, db *sql.DB) string {
+				var sets []string
+				read := func(x interface {
+					QueryContext(ctx context.Context, query string, args ...interface{}) (*sql.Rows, error)
+				}) {
+					rows, err := x.QueryContext(ctx, q)
+					if err != nil {
+						sets = append(sets, errText(err))
+						return
+					}
+					defer rows.Close()
+					for {
+						cols, _ := rows.Columns()
+						var got []string
+						for rows.Next() {
+							vals := make([]sql.NullInt64, len(cols))
+							ptrs := make([]interface{}, len(cols))
+							for k := range vals {
+								ptrs[k] = &vals[k]
+							}
+							rows.Scan(ptrs...)
+							var cells []string
+							for _, v := range vals {
+								cells = append(cells, fmt.Sprint(v.Int64))
+							}
+							got = append(got, strings.Join(cells, ":"))
+						}
+						sets = append(sets, strings.Join(cols, ",")+"="+strings.Join(got, ","))
+						if !rows.NextResultSet() {
+							break
+						}
+					}
+					if err := rows.Err(); err != nil {
+						sets = append(sets, errText(err))
+					}
+				}
+				if explicit {
+					tx, err := db.BeginTx(ctx, nil)
+					if err != nil {
+						return "err:begin"
+					}
+					read(tx)
+					tx.Commit()
+				} else {
+					read(db)
+				}
+				return strings.Join(sets, " | ")
+			}
+			var proxy, bare string
+			var xid string
+			crash := safeCall(func() {
+				bare = run(context.Background(), w.Bare)
+				xid, _ = InGlobalTx(cid, func(ctx context.Context) error {
+					if mode == "xa" {
+						proxy = run(ctx, xa)
+					} else {
+						proxy = run(ctx, w.DB)
+					}
+					return nil
+				})
+			})
+			for _, b := range w.coord.RegisteredBranches(xid) {
+				w.coord.CommitBranch(w.coord.LastSession(), b, 3*time.Second)
+			}
+			c.Out.Case(cid, "C16", "skip", "skip")
+			class, detail := "", ""
+			switch {
+			case crash != "":
+				class, detail = "crash", crash
+			case proxy != bare:
+				class, detail = "result_sets_differ", fmt.Sprintf("plain driver: %s; %s proxy inside a global transaction: %s", bare, mode, proxy)
+			}
+			if len(w.Eng.OpenTxns()) > 0 && class == "" {
+				class, detail = "transaction_left_open", fmt.Sprint(w.Eng.OpenTxns())
+			}
+			c.Out.Oracle(cid, class == "", class, fmt.Sprintf("%s | mode=%s explicit=%v", detail, mode, explicit))
+			c.Out.Tag(cid, "nontrivial=1")
+			c.Out.Count("result-sets." + mode)
+			w.Eng.DropTable(table)
+		}
+	}
+}
